@@ -73,4 +73,8 @@ impl MissedPronounPass {
     }
 }
 
-impl Pass for MissedPronounPass {}
+impl Pass for MissedPronounPass {
+    fn reset(&mut self) {
+        *self = Self::new();
+    }
+}
